@@ -364,6 +364,26 @@ def transform_fill_grid(chk):
         check_pictures(chk, font, cfg, srcs, glyphs, 0.1, f"grid [{label}] [{fmt}]", replay, deltas=CC.layer_deltas(glyphs, cfg, 0.1))
 
 
+def reuse_fill_grid(chk):
+    """reuse transform kinds x fill kinds as picosvg documents (<use> with x / y / transform, gradients counter-transformed
+    for the copy)."""
+    for k, (label, glyphs) in enumerate(S.reuse_fill_grid()):
+        fmt = "picosvg" if k % 5 else "picosvgz"
+        cfgkw = dict(color_format=fmt, keep_glyph_names=True, reuse_tolerance=0.1, clip_to_viewbox=False, **S.LATTICE_CONFIG)
+        cfg = build.base_config(**cfgkw)
+        srcs = CC.sources_from(glyphs)
+        replay = {"kind": "reuse-x-fill", "label": label, "config": {a: str(b) for a, b in cfgkw.items()}, "svgs": [x.svg_text for x in srcs]}
+        chk.case(key=("reuse-grid", label), nontrivial=True)
+        chk.traces_validated += 1
+        try:
+            _, font = build.build(cfg, srcs, already_pico=True)
+        except Exception as e:
+            chk.violation(f"valid sources fail to build [{label}] ({fmt}): {type(e).__name__}: {str(e)[:200]}", replay)
+            continue
+        structural_checks(chk, font, f"reuse grid {label}", replay)
+        check_pictures(chk, font, cfg, srcs, glyphs, 0.1, f"reuse grid [{label}] [{fmt}]", replay, deltas=CC.layer_deltas(glyphs, cfg, 0.1))
+
+
 def shared_gradient_documents(chk, n):
     for k in range(n):
         r = common.rng("C02", "sg", k)
@@ -419,6 +439,7 @@ def run(chk):
     replay_model(chk, res.records, 100 if quick else 3000)
     random_formats(chk, 50 if quick else 1500)
     transform_fill_grid(chk)
+    reuse_fill_grid(chk)
     replay_gradient_model(chk)
     shared_gradient_documents(chk, 16 if quick else 400)
     chk.assumptions += ["OT-SVG/SVG 1.1 semantics as implemented by harness/oracle_otsvg.py (g, path, use, defs, basic "
